@@ -1612,7 +1612,7 @@ fn main() {
 	rec.notes.insert("roundtrips".into(), format!("monitors={} (byte-identical re-encoding: {}) monitor_updates={} update_applied_after_roundtrip={} (skipped: {}) channel_details={} events={} manager_reloads={} manager_shadow_reloads_with_deep_dump={} rare_state_runs={} rare_state_cut_points={} network_graphs={} scorers={}", st.n_mon_rt, st.n_mon_identical, st.n_upd_rt, st.n_apply, st.n_apply_skipped, st.n_det, st.n_ev, st.n_mgr, st.n_shadow, st.n_rare_runs, st.n_rare_cuts, st.n_graph, st.n_scorer));
 	rec.notes.insert("states_reached".into(), st.mon_states.iter().cloned().collect::<Vec<_>>().join(","));
 	rec.notes.insert("stats".into(), stats.join(" "));
-	rec.notes.insert("not_covered".into(), "OutputSweeper (needs an async KVStore + wallet set-up; its TLV blocks are in the generated schema list only); ChannelManager malformed-stream mutations (each needs a full node reload); the behavioural comparison original vs reloaded manager covers the scripted rare-state scenarios (payment events and end state), not the random schedules (there the reloaded node continues under the engine's own oracles); reloads always hand over the LATEST monitors (stale-monitor restarts are C10's subject), so in-flight updates / blocked completion actions / pending claims are written but resolved by the read; retry_strategy / attempts of a Retryable payment and timer_ticks of a claimable HTLC are declared non-persistent and masked".into());
+	rec.notes.insert("not_covered".into(), "OutputSweeper: round trip + behaviour of the re-read copy are checked on StaticOutput descriptors only (section viii; the other descriptor kinds need channel keys) and only at the points where the sweeper persists (track / sweep: chain updates are persisted lazily by design); ChannelManager malformed-stream mutations (each needs a full node reload); the behavioural comparison original vs reloaded manager covers the scripted rare-state scenarios (payment events and end state), not the random schedules (there the reloaded node continues under the engine's own oracles); reloads always hand over the LATEST monitors (stale-monitor restarts are C10's subject), so in-flight updates / blocked completion actions / pending claims are written but resolved by the read; retry_strategy / attempts of a Retryable payment and timer_ticks of a claimable HTLC are declared non-persistent and masked".into());
 	rec.notes.insert("rare_states".into(), "scripts: {underpaid, overforwarded} x {claim, fail, blocks}, mpp2-underpaid-claim, mpp2-partial-timeout, mpp2-one-part-failed, holding-cell, async-persist-claim, async-persist-mpp2-underpaid, gossip-status (disable / enable staging, 12 extra ticks at the cut node in both runs because the staged tick counters are documented as not persisted); cut points = every effective act / micro-step (quick: all within two steps of a non-micro act + every third other one, the node(s) the neighbouring acts concern; thorough: all, every node); states written are listed in states_reached as rare:written:*".into());
 	rec.finish();
 }
@@ -1620,7 +1620,7 @@ fn main() {
 // ---------------------------------------------------------------------------------------------------
 // (viii) OutputSweeper round trip (util/sweep.rs; census row "OutputSweeper … NOT COVERED at run time"): a real
 // `OutputSweeperSync` is driven through track / sweep / block connect / reorg; after EVERY op the bytes it persisted to its
-// KVStore are read back into a second sweeper (fresh store / broadcaster), which must report the same best block and the
+// KVStore (after track / sweep: chain updates are persisted lazily) are read back into a second sweeper, which must report the same best block and the
 // same tracked outputs (TrackedSpendableOutput: descriptor, channel id, counterparty, status — `==`), and the NEXT op is
 // applied to both: same state and the same transactions broadcast afterwards ("reacting to all subsequent … blocks like
 // the original").  Model-free implementation oracle.
@@ -1678,6 +1678,21 @@ mod sweeper_rt {
 	struct Side { sw: Sw, bc: &'static Bcast, change: &'static Change, store: &'static TestStore }
 	fn leak<T>(t: T) -> &'static T { Box::leak(Box::new(t)) }
 	fn state(sw: &Sw) -> String { format!("best={:?} outputs={:?}", sw.current_best_block(), sw.tracked_spendable_outputs()) }
+	/// a transaction up to the order of its inputs (the sweeper collects the outputs to spend in a HashSet: two instances with the same
+	/// state build sweeps whose inputs are permuted)
+	fn tx_key(t: &Transaction) -> String { let mut ins: Vec<String> = t.input.iter().map(|i| format!("{:?}", i)).collect(); ins.sort(); format!("v{:?} lt{:?} in{:?} out{:?}", t.version, t.lock_time, ins, t.output) }
+	/// the state with every sweep transaction replaced by its `tx_key`: used to compare the BEHAVIOUR of the re-read copy
+	fn behaviour(sw: &Sw) -> String {
+		let outs: Vec<String> = sw.tracked_spendable_outputs().iter().map(|o| {
+			let st = match &o.status {
+				OutputSpendStatus::PendingInitialBroadcast { delayed_until_height } => format!("I {:?}", delayed_until_height),
+				OutputSpendStatus::PendingFirstConfirmation { first_broadcast_hash, latest_broadcast_height, latest_spending_tx } => format!("F {:?} {} {}", first_broadcast_hash, latest_broadcast_height, tx_key(latest_spending_tx)),
+				OutputSpendStatus::PendingThresholdConfirmations { first_broadcast_hash, latest_broadcast_height, latest_spending_tx, confirmation_height, confirmation_hash } => format!("T {:?} {} {} {} {:?}", first_broadcast_hash, latest_broadcast_height, tx_key(latest_spending_tx), confirmation_height, confirmation_hash),
+			};
+			format!("{:?} {:?} {:?} {}", o.descriptor, o.channel_id, o.counterparty_node_id, st)
+		}).collect();
+		format!("best={:?} outputs={:?}", sw.current_best_block(), outs)
+	}
 	fn header(prev: BlockHash, nonce: u32) -> Header {
 		Header { version: bitcoin::block::Version::NO_SOFT_FORK_SIGNALLING, prev_blockhash: prev, merkle_root: bitcoin::hash_types::TxMerkleNode::all_zeros(), time: nonce, bits: bitcoin::pow::CompactTarget::from_consensus(42), nonce }
 	}
@@ -1757,14 +1772,18 @@ mod sweeper_rt {
 				// behaviour of the copy read back before this op
 				if let Some(sh) = &shadow {
 					let txs: Vec<Transaction> = sh.bc.0.lock().unwrap().drain(..).collect();
-					if state(&sh.sw) != state(&orig.sw) || txs != txo {
+					if behaviour(&sh.sw) != behaviour(&orig.sw) || txs.iter().map(tx_key).collect::<Vec<_>>() != txo.iter().map(tx_key).collect::<Vec<_>>() {
+						if std::env::var("C12_DEBUG").is_ok() { let (a, b) = (state(&orig.sw), state(&sh.sw)); let p = a.chars().zip(b.chars()).position(|(x, y)| x != y).unwrap_or(0); eprintln!("SWEEPER DIFF at {}: ORIG …{} | REREAD …{} | txo {:?} | txs {:?}", p, a.chars().skip(p.saturating_sub(200)).take(500).collect::<String>(), b.chars().skip(p.saturating_sub(200)).take(500).collect::<String>(), txo, txs); }
 						fails.push(format!("OutputSweeper scenario {} (seed {}): after `{}` the sweeper that was read back from the persisted bytes before this op differs from the original: ORIGINAL {} broadcast {:?} | RE-READ {} broadcast {:?} | ops: {}", sc, seed, op, state(&orig.sw).chars().take(500).collect::<String>(), txo.iter().map(|t| t.compute_txid()).collect::<Vec<_>>(), state(&sh.sw).chars().take(500).collect::<String>(), txs.iter().map(|t| t.compute_txid()).collect::<Vec<_>>(), hist.join("; ")));
 						break 'ops;
 					}
 					*stats.entry("sweeper:op-applied-to-reread-copy-same-result".into()).or_insert(0) += 1;
 				}
 				for t in txo { if !pool.contains(&t) { pool.push(t); } }
-				// round trip of what is persisted now
+				// round trip of what is persisted now.  Chain updates (Listen / Confirm) only mark the state dirty: it is persisted by the next
+				// track / regenerate_and_broadcast_spend_if_necessary (documented lazy persistence), so the persisted bytes are compared with
+				// the in-memory state after those two ops only; the copy read back then keeps receiving every later op.
+				if !(op.starts_with("track") || op == "sweep") { *stats.entry("sweeper:chain-op-not-persisted-yet(by design)".into()).or_insert(0) += 1; continue; }
 				match reread(&orig) {
 					Err(e) if e.starts_with("nothing persisted") => { *stats.entry("sweeper:nothing-persisted-yet".into()).or_insert(0) += 1; },
 					Err(e) => { fails.push(format!("OutputSweeper scenario {} (seed {}): after `{}`: {} | ops: {}", sc, seed, op, e, hist.join("; "))); break 'ops; },
